@@ -197,6 +197,16 @@ where
     }
 }
 
+#[cfg(agdb_verif)]
+impl<D> GraphDataStorage<D>
+where
+    D: StorageData,
+{
+    pub(crate) fn verif_storage_index(&self) -> StorageIndex {
+        self.storage_index
+    }
+}
+
 impl<D> GraphData<D> for GraphDataStorage<D>
 where
     D: StorageData,
